@@ -24,3 +24,4 @@ open IrVerif.Path
 #print axioms C10_world_chdir_opens
 #print axioms C10_bytes_location
 #print axioms C10_pathmax_verified_partial
+#print axioms C10_pathmax_safe
